@@ -18,6 +18,28 @@ namespace Snowflake.Metrics.C19
 theorem ceil8_spec (n : Nat) : 8 ∣ ceil8 n ∧ n ≤ ceil8 n ∧ ceil8 n < n + 8 :=
   ⟨ceil8_dvd n, ceil8_ge n, ceil8_lt n⟩
 
+/-- Rounding is monotone: a larger true count is never published as a smaller number. -/
+theorem ceil8_mono (a b : Nat) (h : a ≤ b) : ceil8 a ≤ ceil8 b := by
+  unfold ceil8; omega
+
+/-- Rounding an already rounded value changes nothing (publishing twice cannot inflate a count). -/
+theorem ceil8_idem (n : Nat) : ceil8 (ceil8 n) = ceil8 n := by
+  unfold ceil8; omega
+
+/-- A published `0` means exactly "no events": a non-zero count is never hidden as zero, and zero is never
+published as `8`. -/
+theorem ceil8_zero_iff (n : Nat) : ceil8 n = 0 ↔ n = 0 := by
+  unfold ceil8; omega
+
+/-- The published value is the true one exactly for multiples of 8. -/
+theorem ceil8_fixed_iff (n : Nat) : ceil8 n = n ↔ 8 ∣ n := by
+  unfold ceil8; omega
+
+/-- **What a published count reveals**: two true counts are published as the same number exactly when they
+fall in the same bucket `8k-7 … 8k` — the published number determines the bucket and nothing more. -/
+theorem ceil8_bucket (a b : Nat) : ceil8 a = ceil8 b ↔ (a + 7) / 8 = (b + 7) / 8 := by
+  unfold ceil8; omega
+
 /-- The three requirements single out one value: anything published that satisfies them *is*
 `ceil8` of the true count (so "equals the true number rounded up to the next multiple of 8"). -/
 theorem rounded_unique (t v : Nat) : RoundedOK t v ↔ v = ceil8 t := roundedOK_iff t v
